@@ -1403,6 +1403,8 @@ func main() {
 		case "mergeds": // C15 without lists and without SMove
 			g.noSMove = true
 			g.histMixed(mixOpts{kinds: []string{"kv", "set", "zset"}, pMulti: 40, pNoCommit: 10, pMerge: 12, faults: true})
+		case "mergeproto": // C15/C16 at protocol grain: the trace is validated by MergeTrace.tla
+			g.histMergeProto()
 		case "mergekv":
 			g.histMixed(mixOpts{kinds: []string{"kv"}, pMulti: 40, pNoCommit: 15, pMerge: 15, faults: true})
 		default:
